@@ -68,22 +68,22 @@ type iterState struct {
 }
 
 type Frame struct {
-	fn       *ssa.Function
-	regs     map[ssa.Value]Value
-	block    *ssa.BasicBlock
-	prev     *ssa.BasicBlock
-	idx      int
-	defers   []deferRec
-	retTo    ssa.Value // register in the caller frame receiving the result; nil for deferred/go
-	loopEntry map[*ssa.BasicBlock]*State // per loop header: the state in which the loop was entered (for entry(...) in invariants)
-	onReturn func(vc *VC, st *State, res []Value) []Value // post-processing of an inlined frame's results (transaction commit/rollback)
-	cut      map[*ssa.BasicBlock]bool
-	iters    map[ssa.Value]*iterState
-	contract *Contract // contract whose loop invariants apply to this frame (may be nil)
-	inDefers bool
-	itsums   map[ssa.Value]iterSums
-	names    map[string]ssa.Value       // source variable -> the SSA value most recently bound to it on this path (from DebugRefs)
-	objs     map[types.Object]ssa.Value // the same per declared object (several objects may share a name)
+	fn        *ssa.Function
+	regs      map[ssa.Value]Value
+	block     *ssa.BasicBlock
+	prev      *ssa.BasicBlock
+	idx       int
+	defers    []deferRec
+	retTo     ssa.Value                                    // register in the caller frame receiving the result; nil for deferred/go
+	loopEntry map[*ssa.BasicBlock]*State                   // per loop header: the state in which the loop was entered (for entry(...) in invariants)
+	onReturn  func(vc *VC, st *State, res []Value) []Value // post-processing of an inlined frame's results (transaction commit/rollback)
+	cut       map[*ssa.BasicBlock]bool
+	iters     map[ssa.Value]*iterState
+	contract  *Contract // contract whose loop invariants apply to this frame (may be nil)
+	inDefers  bool
+	itsums    map[ssa.Value]iterSums
+	names     map[string]ssa.Value       // source variable -> the SSA value most recently bound to it on this path (from DebugRefs)
+	objs      map[types.Object]ssa.Value // the same per declared object (several objects may share a name)
 }
 
 func (f *Frame) clone() *Frame {
@@ -138,20 +138,20 @@ type Event struct {
 }
 
 type State struct {
-	pc      []string
-	heaps   map[string]*Term
-	ghosts  map[string]*Term
-	globals map[*ssa.Global]Value
-	frames  []*Frame
-	trace   []string
-	alloc   *Term
-	clock   *Term // last clock reading (monotone)
-	events  []Event
-	dead    bool
-	gmaps   []guardedMap // map references loaded from mutex-guarded fields on this path
-	lastCall string      // site of the most recent call made by the function under contract on this path
-	txnCount int         // database transactions completed on this path
-	strConvs []strConv   // []byte(s) conversions made on this path: the fresh array and the string it holds
+	pc       []string
+	heaps    map[string]*Term
+	ghosts   map[string]*Term
+	globals  map[*ssa.Global]Value
+	frames   []*Frame
+	trace    []string
+	alloc    *Term
+	clock    *Term // last clock reading (monotone)
+	events   []Event
+	dead     bool
+	gmaps    []guardedMap // map references loaded from mutex-guarded fields on this path
+	lastCall string       // site of the most recent call made by the function under contract on this path
+	txnCount int          // database transactions completed on this path
+	strConvs []strConv    // []byte(s) conversions made on this path: the fresh array and the string it holds
 }
 
 type strConv struct {
@@ -246,42 +246,42 @@ type Obligation struct {
 
 // VC is the verification context of one function under contract.
 type VC struct {
-	eng         *Engine
-	fn          *ssa.Function
-	contract    *Contract
-	props       []string
-	decls       []string
-	declSet     map[string]bool
-	axioms      []string
-	obls        []*Obligation
-	nfresh      int
-	npaths      int
-	notes       map[string]bool // assumptions / abstractions applied (for evidence)
-	used        map[string]bool // assumed contracts & handlers actually used
-	refused     string          // non-empty: function is out of reach, with the reason
-	safety      bool
-	debugNames  map[*ssa.Function]map[string][]*ssa.DebugRef
-	entry       *State
-	params      map[string]SV
-	curIns      ssa.Instruction
-	defs        map[string]string // named heap terms (define-fun name -> body)
-	iterPid     map[string]int // database iterator (term) -> key space it walks
+	eng           *Engine
+	fn            *ssa.Function
+	contract      *Contract
+	props         []string
+	decls         []string
+	declSet       map[string]bool
+	axioms        []string
+	obls          []*Obligation
+	nfresh        int
+	npaths        int
+	notes         map[string]bool // assumptions / abstractions applied (for evidence)
+	used          map[string]bool // assumed contracts & handlers actually used
+	refused       string          // non-empty: function is out of reach, with the reason
+	safety        bool
+	debugNames    map[*ssa.Function]map[string][]*ssa.DebugRef
+	entry         *State
+	params        map[string]SV
+	curIns        ssa.Instruction
+	defs          map[string]string // named heap terms (define-fun name -> body)
+	iterPid       map[string]int    // database iterator (term) -> key space it walks
 	iterSeekState map[string]string // database iterator (term) -> fingerprint of the database heaps at its Seek
-	groupKey    string
-	groupPrefix string
-	valueNames  []string
-	valueLabels map[string]string
-	extraValues []string
-	maxPaths    int
-	inlineDepth int
-	lets        map[string]SV
-	nq          int
-	nreturns    int
-	lockCheck   bool
-	curFrame    *Frame
-	key         string
-	nprune      int
-	npruned     int
+	groupKey      string
+	groupPrefix   string
+	valueNames    []string
+	valueLabels   map[string]string
+	extraValues   []string
+	maxPaths      int
+	inlineDepth   int
+	lets          map[string]SV
+	nq            int
+	nreturns      int
+	lockCheck     bool
+	curFrame      *Frame
+	key           string
+	nprune        int
+	npruned       int
 }
 
 func (vc *VC) note(format string, args ...interface{}) {
